@@ -170,7 +170,126 @@ def mkSub (id fl : Nat) (len : Nat) (pl : Bytes) : SubMsg := ⟨⟨UInt8.ofNat i
 def seqBytes (n : Nat) : Bytes := (List.range n).map fun j => UInt8.ofNat (j * 7 + 1)
 def hdr0 : Header := ⟨0x0302, 0x0f01, seqBytes 12⟩
 
+/-! ### the fixed-value field family
+
+  The only bytes of the format whose value the decoder checks are the four magic bytes `52 54 50 53`
+  (every other byte - version, vendor, prefix, id, all eight flag bits, length, payload - is recorded in the
+  packet value and written back by the encoder; there is no reserved/constant byte elsewhere).  A decoder that
+  tolerates any other value there cannot re-encode to its input, because the packet value has no place for it. -/
+
+def magic : Bytes := [0x52, 0x54, 0x50, 0x53]
+
+/-- the well-formed remainders put behind a wrong magic: none, one sub-message (exact fit), three sub-messages
+    with a zero-length tail, a zero-length sub-message with empty payload -/
+def fixedTails : List (List SubMsg) :=
+  [ [],
+    [mkSub 0x15 1 3 (seqBytes 3)],
+    [mkSub 0x09 1 8 (seqBytes 8), mkSub 0x15 0 5 (seqBytes 5), mkSub 0x07 3 0 (seqBytes 6)],
+    [mkSub 0x07 2 0 []] ]
+
+/-- the datagram `encode ⟨h, ms⟩` with its first four bytes replaced by `mg` -/
+def withMagic (mg : Bytes) (h : Header) (ms : List SubMsg) : Bytes :=
+  mg ++ (RtpsSpec.encode ⟨h, ms⟩).drop 4
+
+/-- near-miss alternatives of one magic byte: itself, the other letter case, the neighbouring code points
+    (distance 1, 2 and 5 - `X` is `S`+5 -, both directions), the other three magic letters and `X` -/
+def nearBytes (b : UInt8) : List UInt8 :=
+  ([b, b ^^^ 0x20, b + 1, b - 1, b + 2, b - 2, b + 5, b - 5, (b ^^^ 0x20) + 1, (b ^^^ 0x20) - 1,
+    0x52, 0x54, 0x50, 0x53, 0x58, 0x4d, 0x43]).eraseDups
+
+/-- well-known sibling / historical magics and transformations of the whole word -/
+def siblingMagics : List Bytes :=
+  [ [0x52, 0x54, 0x50, 0x58],   -- RTPX (RTI Connext)
+    [0x52, 0x54, 0x4d, 0x50],   -- RTMP
+    [0x52, 0x54, 0x53, 0x50],   -- RTSP
+    [0x52, 0x54, 0x43, 0x50],   -- RTCP
+    [0x52, 0x54, 0x50, 0x00], [0x52, 0x54, 0x50, 0x20], [0x52, 0x54, 0x50, 0x32],
+    [0x53, 0x50, 0x54, 0x52],   -- byte-reversed
+    [0x54, 0x52, 0x53, 0x50],   -- 16-bit swapped
+    [0x50, 0x53, 0x52, 0x54],   -- halves swapped
+    [0x54, 0x50, 0x53, 0x52], [0x53, 0x52, 0x54, 0x50],   -- rotations
+    [0x00, 0x52, 0x54, 0x50], [0x54, 0x50, 0x53, 0x02],   -- shifted by one byte either way
+    [0xd2, 0xd4, 0xd0, 0xd3], [0xad, 0xab, 0xaf, 0xac],   -- high bit set, complemented
+    [0x44, 0x44, 0x53, 0x49], [0x00, 0x00, 0x00, 0x00], [0xff, 0xff, 0xff, 0xff] ]
+
+def permutations4 (l : Bytes) : List Bytes :=
+  match l with
+  | [a, b, c, d] =>
+    [[a,b,c,d],[a,b,d,c],[a,c,b,d],[a,c,d,b],[a,d,b,c],[a,d,c,b],
+     [b,a,c,d],[b,a,d,c],[b,c,a,d],[b,c,d,a],[b,d,a,c],[b,d,c,a],
+     [c,a,b,d],[c,a,d,b],[c,b,a,d],[c,b,d,a],[c,d,a,b],[c,d,b,a],
+     [d,a,b,c],[d,a,c,b],[d,b,a,c],[d,b,c,a],[d,c,a,b],[d,c,b,a]]
+  | _ => []
+
+def asciiLetters : List UInt8 :=
+  ((List.range 26).map fun j => UInt8.ofNat (0x41 + j)) ++ ((List.range 26).map fun j => UInt8.ofNat (0x61 + j))
+def asciiAlnum : List UInt8 := asciiLetters ++ ((List.range 10).map fun j => UInt8.ofNat (0x30 + j))
+
+def genFixedField (seed n : Nat) (tier : String) (emit : String → IO Unit) : IO Unit := do
+  -- every other value 0..255 at each of the four magic bytes x every remainder: 4 x 255 x 4 datagrams
+  for i in List.range 4 do
+    for v in List.range 256 do
+      let b := UInt8.ofNat v
+      if magic.getD i 0 != b then
+        for ms in fixedTails do
+          emit s!"raw {hexOfBytes (withMagic (magic.set i b) hdr0 ms)}"
+  -- near-miss words: the full product of the per-byte near-miss sets (case changes, neighbouring letters, letters of
+  -- the word itself, X/M/C), i.e. every mixed-case spelling, every word at small letter distance, every word
+  -- over {R,T,P,S,X,M,C}; header-only and one-sub-message remainders
+  let mut words4 : List Bytes := []
+  for a in nearBytes 0x52 do
+    for b in nearBytes 0x54 do
+      for c in nearBytes 0x50 do
+        for d in nearBytes 0x53 do
+          words4 := [a, b, c, d] :: words4
+  -- quick: at most two bytes differ from the magic; thorough: the whole product
+  let differs (w : Bytes) : Nat := ((w.zip magic).filter fun (x, y) => x != y).length
+  for w in words4.reverse do
+    let k := differs w
+    if k != 0 ∧ (tier == "thorough" ∨ k ≤ 2) then
+      emit s!"raw {hexOfBytes (withMagic w hdr0 [])}"
+      emit s!"raw {hexOfBytes (withMagic w hdr0 [mkSub 0x15 1 3 (seqBytes 3)])}"
+  for w in siblingMagics ++ (permutations4 magic).drop 1 do
+    for ms in fixedTails do
+      emit s!"raw {hexOfBytes (withMagic w hdr0 ms)}"
+  -- two magic bytes replaced at once: every pair of positions x every pair of ASCII letters (quick: the six pairs
+  -- over upper-case letters; thorough: letters and digits), one-sub-message remainder
+  let alpha := if tier == "thorough" then asciiAlnum else asciiLetters.take 26
+  for i in List.range 4 do
+    for j in List.range 4 do
+      if i < j then
+        for x in alpha do
+          for y in alpha do
+            if magic.getD i 0 != x ∧ magic.getD j 0 != y then
+              emit s!"raw {hexOfBytes (withMagic ((magic.set i x).set j y) hdr0 [mkSub 0x15 1 3 (seqBytes 3)])}"
+  -- the magic itself in the wrong place: preceded by 1..4 bytes, doubled, one byte missing
+  for ms in fixedTails do
+    let good := RtpsSpec.encode ⟨hdr0, ms⟩
+    for k in [1, 2, 3, 4] do
+      emit s!"raw {hexOfBytes (List.replicate k 0x00 ++ good)}"
+      emit s!"raw {hexOfBytes (magic.take k ++ good)}"
+    for k in List.range 4 do
+      emit s!"raw {hexOfBytes (good.eraseIdx k)}"
+  -- random well-formed packets (own random stream, so the streams below are unchanged) with one magic byte replaced
+  -- by a random other value, and with all four replaced by a near-miss word
+  let mut r := Rng.mk' (seed + 0xC20F1)
+  for _ in List.range (n / 4) do
+    let (p, r1) := genPacket r 4
+    let (i, r2) := r1.nat 4
+    let (d, r3) := r2.nat 255
+    let b := magic.getD i 0 + UInt8.ofNat (d + 1)
+    emit s!"raw {hexOfBytes (withMagic (magic.set i b) p.hdr p.msgs)}"
+    let (a0, r4) := r3.pick (nearBytes 0x52)
+    let (a1, r5) := r4.pick (nearBytes 0x54)
+    let (a2, r6) := r5.pick (nearBytes 0x50)
+    let (a3, r7) := r6.pick (nearBytes 0x53)
+    r := r7
+    if [a0, a1, a2, a3] != magic then
+      emit s!"raw {hexOfBytes (withMagic [a0, a1, a2, a3] p.hdr p.msgs)}"
+
 def gen (seed n : Nat) (tier : String) (emit : String → IO Unit) : IO Unit := do
+  -- (5) the fixed-value field (magic) family -----------------------------------
+  genFixedField seed n tier emit
   -- (4) exhaustive small spaces ------------------------------------------------
   -- every flags byte x {short, 258-byte (asymmetric length bytes), zero-length} x {last, followed}
   for fl in List.range 256 do
